@@ -165,7 +165,7 @@ int main(int argc, char **argv) {
             }
             cm::Doc d = *g::doc(o);
             CaseFile c; c.set("doc", cm::ser_plain(d)); c.seti("explicit2", *g::range(0, 1));
-            begin_case(c);
+            VH_BEGIN(c);
             bool nt = false; size_t maxline = 0;
             for (auto &b : d.blocks) { std::vector<const cm::Container *> st{&b}; while (!st.empty()) { auto *k = st.back(); st.pop_back(); for (auto &l : k->loops) for (auto &r : l.rows) for (auto &v : r) if (hard_value(v)) nt = true; for (auto &f : k->frames) st.push_back(&f); } }
             if (nt) nontrivial(fnv(c.get("doc")));
